@@ -713,7 +713,7 @@ impl Constructor {
             (Constructor::Bool(b1), Constructor::Bool(b2)) => b1 == b2,
             (Constructor::Variant(..), Constructor::Variant(..)) => self == other,
             (Constructor::Int(i1), Constructor::Int(i2)) => i1 == i2,
-            (Constructor::Float(f1), Constructor::Float(f2)) => f1 == f2,
+            (Constructor::Float(f1), Constructor::Float(f2)) => float_lit_eq(f1, f2),
             (Constructor::String(s1), Constructor::String(s2)) => s1 == s2,
             (Constructor::Product, Constructor::Product) => true,
             _ => panic!(
@@ -769,6 +769,15 @@ impl Constructor {
 
     fn is_wildcard_nonexhaustive(&self) -> bool {
         matches!(self, Constructor::Wildcard(WildcardReason::NonExhaustive))
+    }
+}
+
+// Float literal patterns denote values, not spellings: `1.0` and `1.00` are the same constructor.
+// Matching at run time compares the parsed values bit for bit (total_cmp).
+fn float_lit_eq(f1: &str, f2: &str) -> bool {
+    match (f1.parse::<f64>(), f2.parse::<f64>()) {
+        (Ok(v1), Ok(v2)) => v1.to_bits() == v2.to_bits(),
+        _ => f1 == f2,
     }
 }
 
